@@ -480,6 +480,8 @@ def io_cases(kind, positional, tier, full):
         for fsize in ((0, 6) if not full else (0, 4, 9)):
             for off in ((0, 3, (1 << 32) + 2, (1 << 64) - 1, 1 << 63) if positional else (0,)):
                 for pos in ((1,) if not full else (0, 3)):
+                    if off >> 63 and not sum(sh):
+                        continue        # nothing to transfer: whether the host is asked at all (and fails) is not decided here
                     out.append((list(sh), fsize, off, pos))
     return out
 
